@@ -10,8 +10,12 @@ PVals == SeqsBetween(PAlpha, 1, IF Quick THEN 1 ELSE 2) \cup { <<97, 32, 98>>, <
 ParamSeqs == {<<>>} \cup { <<[k |-> k, v |-> v]>> : k \in PVals, v \in PVals }
              \cup { <<[k |-> <<97>>, v |-> v1], [k |-> <<98>>, v |-> v2]>> : v1 \in {<<32>>, <<38>>}, v2 \in {<<61>>, <<255>>} }
 Hdr(k, v) == [k |-> k, v |-> v]
+ContentLength == <<67, 111, 110, 116, 101, 110, 116, 45, 76, 101, 110, 103, 116, 104>>
 HeaderSeqs == { <<>>, <<Hdr(<<72>>, <<118>>)>>, <<Hdr(<<72, 111, 115, 116>>, <<97, 58, 32, 98>>), Hdr(<<88>>, <<>>)>>,
-                <<Hdr(<<67, 111, 111, 107, 105, 101>>, <<97, 61, 98, 59, 32, 99>>), Hdr(<<85, 45, 65>>, <<120, 32, 121>>)>> }
+                <<Hdr(<<67, 111, 111, 107, 105, 101>>, <<97, 61, 98, 59, 32, 99>>), Hdr(<<85, 45, 65>>, <<120, 32, 121>>)>>,
+                \* headers that mean something to an HTTP stack are opaque to the parser: a Content-Length smaller than the body, chunked encoding
+                <<Hdr(ContentLength, <<49>>)>>,
+                <<Hdr(ContentLength, <<48>>), Hdr(<<84, 114, 97, 110, 115, 102, 101, 114, 45, 69, 110, 99, 111, 100, 105, 110, 103>>, <<99, 104, 117, 110, 107, 101, 100>>)>> }
 Bodies == SeqsUpTo({CR, LF, 0, 97}, IF Quick THEN 4 ELSE 6)
 Req(m, p, ps, hs, b) == [method |-> m, path |-> p, params |-> ps, headers |-> hs, body |-> b]
 ReqScn == { Req(m, p, <<>>, <<Hdr(<<72>>, <<118>>)>>, <<>>) : m \in Methods, p \in Paths }
